@@ -313,7 +313,17 @@ def run_fault(case, k, when, events, s0, ctx, acc):
                 except (Violation, core.HarnessError):
                     raise
                 except Exception as e:
-                    raise Violation("wrong-exception", fcase, "%s: the caller sees %s(%s) instead of the OSError" % (where, type(e).__name__, str(e)[:150]))
+                    # an OSError wrapped in another exception still reaches the caller if it is chained to it
+                    chain, seen_os = e, False
+                    for _ in range(6):
+                        chain = chain.__cause__ or chain.__context__
+                        if chain is None:
+                            break
+                        if isinstance(chain, OSError):
+                            seen_os = True
+                            break
+                    if not seen_os:
+                        raise Violation("wrong-exception", fcase, "%s: the caller sees %s(%s) with no OSError behind it" % (where, type(e).__name__, str(e)[:150]))
                 w.fault_at = None  # single fault per execution
                 acc.ev()
                 # (2) file right after the exception
